@@ -52,8 +52,8 @@ RULE = (
     "(hex case/white space/odd final digit; a85 with/without '<~', z or !!!!!, wraps, white space; zlib level 0-9, "
     "window, strategy, flush blocks; RunLength greedy/random/literal splits; LZW greedy/non-maximal matches/early "
     "clear-table, EarlyChange 1 only); TIFF-2 (bpc 8) and PNG 10-15 (bpc 8 or 1) predictors on Flate/LZW stages "
-    "with payloads that are a whole number of rows; exhaustive 5^rows row-filter assignments for rows<=3 (quick) / "
-    "<=5 (thorough). Stream dictionary: Length/Filter/DecodeParms direct or indirect (Length object before or after "
+    "with payloads that are a whole number of rows; exhaustive 5^rows row-filter assignments for rows<=4 (quick) / "
+    "<=6 (thorough); unfiltered streams: exhaustive leading edge x trailing edge x EOL forms x Length mode x separator. Stream dictionary: Length/Filter/DecodeParms direct or indirect (Length object before or after "
     "the stream, or inside an object stream), DecodeParms dict / array / array with nulls or empty dicts, a dict "
     "only with a single filter. distinct = distinct (payload, chain+parameters, encoded bytes, spelling); "
     "non-trivial = payload of at least 2 bytes. Left out as ambiguous or outside the clause: data after EOD, "
@@ -125,6 +125,9 @@ def shards(tier: str, seed: int) -> List[Dict[str, Any]]:
         out.append({"kind": "predrand", "sub": 300 + k, "n": 3000 if q else 15000})
     for k in range(16 if q else 64):
         out.append({"kind": "big", "sub": 400 + k, "n": 8 if q else 14})
+    # exhaustive stream-syntax enumeration for unfiltered payloads: one shard per leading edge
+    for k in range(len(DELIM_EDGES)):
+        out.append({"kind": "delim", "first": k, "sub": 500 + k, "reps": 1 if q else 6})
     return out
 
 
@@ -139,6 +142,11 @@ ADV = [
 ]
 EDGES = [b"\r", b"\n", b"\r\n", b"\n\r", b"\r\r\n", b"\n\n", b"\x00", b" ", b"endstream", b"\nendstream", b"endstream\n",
          b"\rendstream\r", b"stream\n", b"~>", b">"]
+# edges for the exhaustive delimitation family: start x end x EOL after `stream` x EOL before `endstream`
+# x Length direct/indirect-before/indirect-after x separator before `stream`
+DELIM_EDGES = [b"", b"\r", b"\n", b"\r\n", b"\n\r", b"\r\r", b"\n\n", b"\x00", b" ", b"endstream", b"\nendstream\n",
+               b"\rendstream\r", b"\r\nendstream\r\n", b"endobj", b"stream\n", b"stream\r\n", b"\nendstream\nendobj\n"]
+DELIM_SEPS = [b"\n", b"\r\n", b" ", b"", b" %stream\n"]
 TEXT = (b"BT /F1 12 Tf 72 720 Td (The quick brown fox jumps over the lazy dog) Tj ET\n"
         b"q 1 0 0 1 10 20 cm 0.5 g 0 0 100 100 re f Q\n")
 PAYLOAD_KINDS = ("empty", "one", "all256", "runs", "entropy", "text", "zeros4", "twosym", "adv", "adv", "edges", "edges",
@@ -566,8 +574,13 @@ def run_doc_shard(spec: Dict[str, Any], rec) -> None:
         use_xs = rng.random() < 0.2
         items = []
         for _ in range(k):
-            chain = ALL_CHAINS[j % len(ALL_CHAINS)]
-            j += 1
+            if rng.random() < 0.4:
+                # the cycle is dominated by the 125 chains of length 3: draw extra short ones
+                k2 = rng.choice((0, 1, 1, 2))
+                chain = tuple(rng.choice(F.FILTERS) for _ in range(k2))
+            else:
+                chain = ALL_CHAINS[j % len(ALL_CHAINS)]
+                j += 1
             feats = _features(rng)
             sc = build_stream_case(rng, chain, maxlen, feats, lz)
             audit_case(sc)
@@ -690,14 +703,14 @@ def run_pngexh_shard(spec: Dict[str, Any], rec) -> None:
     if bpc == 8:
         for columns in list(range(1, 20)) + [31, 32, 33, 64, 70]:
             for rows in (1, 2, 3, 7):
-                for _ in range(1 if q else 4):
+                for _ in range(6 if q else 30):
                     payload = gen_image(rng, colors * columns * rows)
                     _pred_case(rec, {"Predictor": 2, "Colors": colors, "Columns": columns, "BitsPerComponent": 8}, payload, [], "tiff_cases")
     else:
         # paeth_predictor against PNG 6.6 on a value lattice (one quarter per shard)
         from pdfminer.utils import paeth_predictor
         vals = [0, 1, 2, 3, 4, 63, 64, 65, 126, 127, 128, 129, 130, 191, 192, 193, 251, 252, 253, 254, 255]
-        vals += [rng.randrange(256) for _ in range(3 if q else 40)]
+        vals += [rng.randrange(256) for _ in range(11 if q else 60)]
         mine = vals[colors - 1::4]
         for a in mine:
             for b in vals:
@@ -782,10 +795,48 @@ def run_big_shard(spec: Dict[str, Any], rec) -> None:
     _flush_lzw(rec, lz)
 
 
+def run_delim_shard(spec: Dict[str, Any], rec) -> None:
+    """Unfiltered streams: every (leading edge, trailing edge, EOL after the
+    keyword, EOL before endstream, Length mode, separator) combination; the body
+    between the edges is drawn at random."""
+    rng = random.Random("C03/%d/%d" % (spec["seed"], spec["sub"]))
+    a = DELIM_EDGES[spec["first"]]
+    for _ in range(spec["reps"]):
+        for z in DELIM_EDGES:
+            for kw in streamdoc.KW_EOLS:
+                for end in streamdoc.END_EOLS:
+                    for lm in streamdoc.LENGTH_MODES:
+                        for sep in DELIM_SEPS:
+                            body = rng.choice((b"", b"x", b"endstream", b"\n", b"\r", rng.randbytes(rng.randint(1, 30)),
+                                               b"a\nendstream\nb", b"abc" * rng.randint(1, 2000)))
+                            payload = a + body + z
+                            sp = streamdoc.random_spelling(rng, 0, False)
+                            sp.update({"kw_eol": kw, "end_eol": end, "length": lm, "dict_sep": sep})
+                            b = streamdoc.StreamDocBuilder(rng)
+                            # a second stream after/before it shows that the parser is left in a sane state
+                            other = rng.randbytes(5) + rng.choice(DELIM_EDGES)
+                            sc2 = {"payload": other, "encoded": other, "chain": [], "spelling": streamdoc.random_spelling(rng, 0, False)}
+                            sc = {"payload": payload, "encoded": payload, "chain": [], "spelling": sp}
+                            pair = [sc, sc2] if rng.random() < 0.5 else [sc2, sc]
+                            for x in pair:
+                                x["objid"] = b.add_stream(x["encoded"], [], x["spelling"])
+                            if rng.random() < 0.5:
+                                pair.reverse()
+                            case = {"kind": "doc", "pdf": b.build(), "caching": rng.random() < 0.7, "strict": rng.random() < 0.3,
+                                    "streams": [_slim(x) for x in pair]}
+                            rec.case(chash(payload, sp), len(payload) >= 2)
+                            rec.count("delim_cases")
+                            rec.count("kw_eol:" + ("crlf" if kw == b"\r\n" else "lf"))
+                            rec.count("length:" + lm)
+                            for key, det in observe_doc(case):
+                                rec.fail(key, case, det)
+    rec.see("delim_edges", repr(a))
+
+
 def run_shard(spec: Dict[str, Any], rec) -> None:
     quiet_logging()
     {"doc": run_doc_shard, "direct": run_direct_shard, "pngexh": run_pngexh_shard, "predrand": run_predrand_shard,
-     "big": run_big_shard}[spec["kind"]](spec, rec)
+     "big": run_big_shard, "delim": run_delim_shard}[spec["kind"]](spec, rec)
 
 
 def replay(case: Dict[str, Any]) -> List[Tuple[str, str]]:
